@@ -233,11 +233,69 @@ Definition noct_tbs (p : tbs_parts) : bytes :=
      ++ p_subject_raw p ++ p_spki_raw p ++ p_uid1_raw p ++ p_uid2_raw p
      ++ tlv 2 true 3 (tlv 0 true 16 (concat (map snd (filter (fun e => negb (is_ct e)) (p_exts p)))))).
 
+(* ---- ValidityPeriod = seconds(notAfter) - seconds(notBefore) ---- *)
+(* days from 1970-01-01 of a proleptic Gregorian date *)
+Definition days_from_civil (y m d : Z) : Z :=
+  (let y' := if m <=? 2 then y - 1 else y in
+   let era := y' / 400 in
+   let yoe := y' - era * 400 in
+   let mp := if m <=? 2 then m + 9 else m - 3 in
+   let doy := (153 * mp + 2) / 5 + d - 1 in
+   let doe := yoe * 365 + yoe / 4 - yoe / 100 + doy in
+   era * 146097 + doe - 719468)%Z.
+Definition is_leap (y : Z) : bool :=
+  (((y mod 4 =? 0) && negb (y mod 100 =? 0)) || (y mod 400 =? 0))%Z.
+Definition days_in_month (y m : Z) : Z :=
+  (if m =? 2 then (if is_leap y then 29 else 28)
+   else if (m =? 4) || (m =? 6) || (m =? 9) || (m =? 11) then 30 else 31)%Z.
+Definition digit (b : N) : option Z :=
+  if (48 <=? b) && (b <=? 57) then Some (Z.of_N b - 48)%Z else None.
+Fixpoint digits (acc : Z) (l : bytes) : option Z :=
+  match l with
+  | [] => Some acc
+  | b :: r => match digit b with Some d => digits (acc * 10 + d)%Z r | None => None end
+  end.
+(* seconds since the epoch for the canonical forms YYMMDDhhmmssZ (UTCTime, 1950-2049) and
+   YYYYMMDDhhmmssZ (GeneralizedTime); None for any other form (not modelled) *)
+Definition time_secs (tag : N) (c : bytes) : option Z :=
+  let ylen := if tag =? 23 then 2%nat else 4%nat in
+  if negb ((tag =? 23) || (tag =? 24)) then None
+  else if negb (Nat.eqb (length c) (ylen + 11)) then None
+  else
+    let f (a n : nat) := digits 0%Z (firstn n (skipn a c)) in
+    match f 0%nat ylen, f ylen 2%nat, f (ylen + 2)%nat 2%nat, f (ylen + 4)%nat 2%nat,
+          f (ylen + 6)%nat 2%nat, f (ylen + 8)%nat 2%nat, nth_error c (ylen + 10) with
+    | Some y0, Some mo, Some d, Some h, Some mi, Some s, Some z =>
+        let y := if (tag =? 23)%N then (if y0 <? 50 then 2000 + y0 else 1900 + y0)%Z else y0 in
+        if (z =? 90) && (1 <=? mo)%Z && (mo <=? 12)%Z && (1 <=? d)%Z && (d <=? days_in_month y mo)%Z
+           && (h <? 24)%Z && (mi <? 60)%Z && (s <? 60)%Z
+        then Some (days_from_civil y mo d * 86400 + h * 3600 + mi * 60 + s)%Z
+        else None
+    | _, _, _, _, _, _, _ => None
+    end.
+(* from the raw Validity element: SEQUENCE { notBefore, notAfter } *)
+Definition validity_of (raw : bytes) : option Z :=
+  match next raw with
+  | Some (_, c, _, _) =>
+      match take_elems 2 c with
+      | Some ([(t1, c1, _); (t2, c2, _)], _) =>
+          if negb (t_comp t1) && (t_class t1 =? 0) && negb (t_comp t2) && (t_class t2 =? 0) then
+            match time_secs (t_tag t1) c1, time_secs (t_tag t2) c2 with
+            | Some a, Some b => Some (b - a)%Z
+            | _, _ => None
+            end
+          else None
+      | _ => None
+      end
+  | None => None
+  end.
+
 Record meta := mkMeta {
   m_raw : bytes; m_raw_tbs : bytes; m_raw_issuer : bytes; m_raw_subject : bytes; m_raw_spki : bytes;
   m_version : Z; m_self_signed : bool;
   m_fp_md5 : bytes; m_fp_sha1 : bytes; m_fp_sha256 : bytes;
-  m_fp_spki : bytes; m_fp_tbs : bytes; m_fp_noct : bytes; m_fp_spki_subject : bytes }.
+  m_fp_spki : bytes; m_fp_tbs : bytes; m_fp_noct : bytes; m_fp_spki_subject : bytes;
+  m_validity : option Z }.   (* None: a time form the model does not cover *)
 
 Section Meta.
   Variables md5 sha1 sha256 : bytes -> bytes.
@@ -271,7 +329,8 @@ Section Meta.
                 (bytes_eqb (p_subject_raw p) (p_issuer_raw p) && sigok bs)
                 (md5 bs) (sha1 bs) (sha256 bs)
                 (sha256 (p_spki_raw p)) (sha256 raw_tbs) (sha256 (noct_tbs p))
-                (sha256 (p_spki_raw p ++ p_subject_raw p)))
+                (sha256 (p_spki_raw p ++ p_subject_raw p))
+                (validity_of (p_validity_raw p)))
     | None => None
     end.
 End Meta.
@@ -324,14 +383,18 @@ Definition meta_eqb (a b : meta) : bool :=
   && bytes_eqb (m_fp_md5 a) (m_fp_md5 b) && bytes_eqb (m_fp_sha1 a) (m_fp_sha1 b)
   && bytes_eqb (m_fp_sha256 a) (m_fp_sha256 b) && bytes_eqb (m_fp_spki a) (m_fp_spki b)
   && bytes_eqb (m_fp_tbs a) (m_fp_tbs b) && bytes_eqb (m_fp_noct a) (m_fp_noct b)
-  && bytes_eqb (m_fp_spki_subject a) (m_fp_spki_subject b).
+  && bytes_eqb (m_fp_spki_subject a) (m_fp_spki_subject b)
+  && match m_validity a with
+     | Some v => option_eqb Z.eqb (Some v) (m_validity b)
+     | None => true        (* first argument = model: unmodelled time form, not compared *)
+     end.
 
 (* which observables to compare: everything, or everything but the no-CT
    fingerprint (certificates whose TBS does not re-marshal to itself) *)
 Definition blank_noct (m : meta) : meta :=
   mkMeta (m_raw m) (m_raw_tbs m) (m_raw_issuer m) (m_raw_subject m) (m_raw_spki m) (m_version m)
          (m_self_signed m) (m_fp_md5 m) (m_fp_sha1 m) (m_fp_sha256 m) (m_fp_spki m) (m_fp_tbs m) []
-         (m_fp_spki_subject m).
+         (m_fp_spki_subject m) (m_validity m).
 
 (* (input, CheckSignature-under-own-key result, hash table, canonical?, Go's metadata or None when Go rejects) *)
 Definition ccert := (bytes * bool * table * bool * option meta)%type.
